@@ -257,7 +257,7 @@ class Check:
         self.known_lines.append(what)
 
     def finish(self, level="proof"):
-        for w in self.known_lines:
+        for w in dict.fromkeys(self.known_lines):
             print("KNOWN-FINDING: property=%s %s" % (self.prop, w))
         ev = {
             "property_id": self.prop,
